@@ -293,6 +293,16 @@ class _CP(Prop):
         if k % 20 == 7:
             return skew_case(rng)
         case = gen_cp_case(rng, tier)
+        if k % 20 == 13:
+            # event records / waits in the trace and the frame state with every decoded string column (MC_Session state
+            # {s_cat, s_name, s_user_annotation, user_annotation}) before the analysis
+            cfg = cp_cfg(rng, tier)
+            cfg.p_event_sync, cfg.p_sync, cfg.n_ranks = 0.3, 0.2, 1
+            keep = {x: case[x] for x in ("incl", "zero", "ann", "inst", "iseed")}
+            case = case_from_cfg(rng, cfg)
+            case.update(keep)
+            case["rank"] = 0
+            case["prefix"] = ["user_annotations", "decode_names"]
         if k % 5 == 4 and all(r["ticks"] == 1 for r in case["ranks"]):
             fractional_durations(rng, case)
         return case
